@@ -24,10 +24,25 @@ contract(M + 'match_scope', params=dict(self=CSSMATCH, el=NODE), returns=BOOL, e
 
 # sub-matchers not (yet) verified against a defined spec: their contracts are modular placeholders whose meaning is
 # an abstract spec function; the evidence lists them as "proved modulo" edges
-for fn, params, spec in [
-    ('match_dir', dict(self=CSSMATCH, el=NODE, directionality=FLAGS), 'sem_dir(self, el, directionality)'),
-]:
-    contract(M + fn, params=params, returns=BOOL, ensures=[f'result == {spec}'], opaque=True, properties=['C01'])
+# :dir() (C17): recursion over ancestors (measure: depth) and, for dir=auto, over the consulted subtree (measure: height)
+OPT_INT_ = TOpt(FLAGS)
+_STRDIR = "is_str_val(attr_by_name({0}, 'dir', ''))"
+contract(M + 'find_bidi', params=dict(self=CSSMATCH, el=NODE), returns=OPT_INT_, requires=['el is not None', 'is_tag(el)'],
+         ensures=['result == bidi_of(self, all_kids(self, el), 0)'], decreases='height(el)', unfold=4,
+         locals=dict(direction=OPT_INT_, name=OPT_STR, value=OPT_INT_),
+         loops={1: dict(var='node', assume_elem=['node is not None', 'parent(node) == el', _STRDIR.format('node')],
+                        invariant=['_seq1 == all_kids(self, el)', 'bidi_of(self, _seq1, _i1) == bidi_of(self, _seq1, 0)']),
+                2: dict(var='c', iter_text=True,
+                        invariant=['_seq2 == text(node)', 'first_strong(_seq2, _i2) == first_strong(_seq2, 0)'])},
+         properties=['C17'])
+contract(M + 'match_dir', params=dict(self=CSSMATCH, el=NODE, directionality=FLAGS), returns=BOOL, requires=WF,
+         assumes=['el is None or (' + _STRDIR.format('el') + " and is_str_val(attr_by_name(el, 'type', '')) and is_str_val(attr_by_name(el, 'value', '')))",
+                  'el is None or is_tag(el)'],
+         ensures=['result == sem_dir(self, el, directionality)'], decreases='0 if el is None else depth(el) + 1',
+         locals=dict(direction=OPT_INT_, name=OPT_STR, value=STR),
+         comps={1: dict(var='node', fold='texts_from', args='', assume_elem=['node is not None'])},
+         loops={1: dict(var='c', invariant=['first_strong(_seq1, _i1) == first_strong(_seq1, 0)', '_seq1 == value'])},
+         properties=['C17'])
 
 contract(M + 'match_subselectors', params=dict(self=CSSMATCH, el=NODE, selectors=TSeq(SELLIST)), returns=BOOL,
          requires=['el is not None', 'is_tag(el)', 'wf_subs(selectors, 0)'] + WF,
@@ -163,7 +178,8 @@ contract(M + 'match_selectors', params=dict(self=CSSMATCH, el=NODE, selectors=SE
                         invariant=['match == (_i1 > 0 and is_not)', 'is_not == selectors.is_not', 'is_html == selectors.is_html',
                                    'wf_from(selectors, _i1)',
                                    f'any_from({CTX}, el, selectors.selectors, _i1) == any_from({CTX}, el, selectors.selectors, 0)'])},
-         unfold=2, opaque_specs=['sem_nth', 'sem_attrs', 'sem_ids', 'sem_classes', 'sem_range'],
+         unfold=2, opaque_specs=['sem_nth', 'sem_attrs', 'sem_ids', 'sem_classes', 'sem_range', 'sem_lang', 'sem_dir', 'sem_indeterminate', 'sem_default', 'sem_contains',
+                              'sem_empty', 'sem_root', 'sem_defined', 'sem_placeholder'],
          properties=['C01', 'C04', 'C05', 'C11'])
 contract(M + 'match', params=dict(self=CSSMATCH, el=NODE), returns=BOOL, requires=['ir_wf_list(self.selectors)'] + WF,
          ensures=[f'result == matches({CTX}, el)'], properties=['C03'])
